@@ -66,7 +66,10 @@ func init() {
 			if !expression.IsValid() {
 				a.Panicf("len(): argument is not a valid value")
 			}
-			if expression.Kind() == reflect.Ptr || expression.Kind() == reflect.Interface {
+			for expression.Kind() == reflect.Ptr || expression.Kind() == reflect.Interface {
+				if expression.IsNil() {
+					a.Panicf("len(): nil pointer or interface of type %s", expression.Type())
+				}
 				expression = expression.Elem()
 			}
 
